@@ -379,7 +379,12 @@ def main(run):
             evals += 1; stats["two_d"] += 1
             desc = dict(kind="2d", accuracy=acc, nqx=len(qx), nqy=len(qy))
             try:
-                res = Pinhole2D(data=data, accuracy=acc)
+                # every other case asks for the widths to be read along the detector axes (coords='cartesian') instead of
+                # along and across q: the cloud is centred on the pixel either way
+                coords_ = "cartesian" if rep % 2 == 1 else "polar"
+                desc["coords"] = coords_
+                stats["two_d_cartesian"] = stats.get("two_d_cartesian", 0) + int(coords_ == "cartesian")
+                res = Pinhole2D(data=data, accuracy=acc, coords=coords_)
                 w = np.asarray(res.q_calc_weights)
                 flat = res.apply(np.full(len(res.q_calc[0]), 2.5))
                 if not (w > 0).all():
@@ -392,7 +397,9 @@ def main(run):
                     # axes included; and with zero widths an even theory is returned exactly
                     mx = res.apply(np.asarray(res.q_calc[0])); my = res.apply(np.asarray(res.q_calc[1]))
                     dqx_, dqy_ = np.asarray(res.qx_data), np.asarray(res.qy_data)
-                    sc_ = np.abs(dqx_) + np.abs(dqy_) + 1e-300
+                    # (scale: the pixel's own |q| plus a fraction of the detector's extent, so that a pixel AT the origin -
+                    #  reachable with widths read along the detector axes - is judged on an absolute scale)
+                    sc_ = np.abs(dqx_) + np.abs(dqy_) + 1e-3 * float(np.max(np.abs(dqx_)) + np.max(np.abs(dqy_)))
                     off = np.maximum(np.abs(np.abs(mx) - np.abs(dqx_)), np.abs(np.abs(my) - np.abs(dqy_))) / sc_
                     cross = np.abs(mx * dqy_ - my * dqx_) / sc_ ** 2
                     stats["two_d_centroids"] = stats.get("two_d_centroids", 0) + len(mx)
